@@ -27,17 +27,19 @@ DrawIdx(s, ty, u16) == IF Tr(s, ty).draw > 0 THEN (u16 * Tr(s, ty).draw) \div 65
 Outcome(s, ty, u16) == Tr(s, ty).out[DrawIdx(s, ty, u16) + 1]
 
 \* the destination rule may differ for the LPs below / from M.split (chains hopping between two halves)
-MkSend(me, now, sd) ==
-  [lp |-> (me + (IF me < M.split THEN sd.drule ELSE sd.drule2)) % NLps, t |-> now + sd.delay, ty |-> sd.ty, pid |-> sd.pid]
+\* a send with type 0 / payload -1 forwards the type / payload of the event being processed unchanged
+MkSend(me, now, sd, cty, cpid) ==
+  [lp |-> (me + (IF me < M.split THEN sd.drule ELSE sd.drule2)) % NLps, t |-> now + sd.delay,
+   ty |-> IF sd.ty = 0 THEN cty ELSE sd.ty, pid |-> IF sd.pid < 0 THEN cpid ELSE sd.pid]
 
 \* handler semantics: state [s, cnt] of LP me receives event (now, ty, pid), library draw u16
 NextS(s, ty, pid, u16) == (Outcome(s, ty, u16).ns + PAdd(pid)) % M.K
-Sends(me, st, now, ty, u16) ==
+Sends(me, st, now, ty, pid, u16) ==
   IF st.cnt < M.cap[me + 1]
-  THEN [i \in 1..Len(Outcome(st.s, ty, u16).sends) |-> MkSend(me, now, Outcome(st.s, ty, u16).sends[i])]
+  THEN [i \in 1..Len(Outcome(st.s, ty, u16).sends) |-> MkSend(me, now, Outcome(st.s, ty, u16).sends[i], ty, pid)]
   ELSE <<>>
 Handle(me, st, ty, pid, u16) == [s |-> NextS(st.s, ty, pid, u16), cnt |-> st.cnt + 1]
-InitSends(me) == [i \in 1..Len(M.init[me + 1]) |-> MkSend(me, 0, M.init[me + 1][i])]
+InitSends(me) == [i \in 1..Len(M.init[me + 1]) |-> MkSend(me, 0, M.init[me + 1][i], 1, 0)]
 InitSt == [s |-> 0, cnt |-> 0]
 UsesDraw(s, ty) == Tr(s, ty).draw > 0
 
@@ -47,5 +49,5 @@ Pred(me, st) == st.cnt >= M.need[me + 1] /\ M.endmask[st.s + 1] = 1
 ValidModel ==
   \A s \in 0..(M.K - 1), ty \in 1..M.T :
     \A d \in 1..Len(Tr(s, ty).out) : \A i \in 1..Len(Tr(s, ty).out[d].sends) :
-      LET sd == Tr(s, ty).out[d].sends[i] IN sd.delay > 0 \/ sd.ty < ty
+      LET sd == Tr(s, ty).out[d].sends[i] IN sd.delay > 0 \/ (sd.ty # 0 /\ sd.ty < ty) \/ (sd.ty = 0 /\ sd.pid < 0)
 =============================================================================
